@@ -87,7 +87,10 @@ class ActionContext(abc.ABC):
         var_processor = VariableSetProcessor({}, self.var_cache, self.collection_config)
 
         try:
-            result = self.trigger_context.evaluate_expression(watch)
+            ok, result = self.trigger_context.try_evaluate(watch)
+            if not ok:
+                # the expression failed: that is an error result, not a value that happens to be an exception
+                raise result
             # only a log message uses the text of the value
             variable_id, log_str = var_processor.process_variable(watch, result, as_text=source == WATCH_SOURCE_LOG)
             if variable_id.vid is None:
